@@ -100,6 +100,18 @@ Proof.
   rewrite !clipk_clipv. cbn [ole]. apply clipv_mono; exact Hab.
 Qed.
 
+(* whole positions: enforcement keeps the coordinatewise order between two positions of the same shape *)
+Lemma clip_rows_mono lbs : forall ubs c c',
+  Forall2 (Forall2 (fun a b => ole a b = true)) c c' ->
+  Forall2 (Forall2 (fun a b => ole a b = true))
+    (clip_rows (map Some lbs) (map Some ubs) c) (clip_rows (map Some lbs) (map Some ubs) c').
+Proof.
+  induction lbs as [|l lbs IH]; intros [|u ubs] c c' H; cbn [map clip_rows]; try exact H.
+  destruct H as [|r r' c c' Hr Hc]; cbn [clip_rows]; constructor.
+  - apply clip_row_mono. exact Hr.
+  - apply IH. exact Hc.
+Qed.
+
 Example clip_order_nonvacuous :
   let l := -4616189618054758401 in let h := 4607182418800017408 in     (* [-1.0, 1.0] *)
   kle l h = true /\ clipv l h KINF = h /\ clipv l h (- KINF - 1) = l /\ clipv l h (-1) = -1 /\
